@@ -4,6 +4,7 @@
 -/
 import Ps3.Model.Conn
 import Ps3.Model.Viso
+import Ps3.Model.Crypt
 
 namespace Ps3.FSWrap
 open Ps3 Ps3.Conn Ps3.PathStr
@@ -26,12 +27,90 @@ def visoView (w : World) (img : Viso.Image) : StaticView :=
     read := fun off n => img.read (contentOf w) off n,
     seekOk := fun off => off ≤ img.totalSize }
 
-/-- translatePath + NewVirtualISO; other wrappers are added by `wrapFile` -/
+def lowerBytes (b : Bytes) : List Nat := (Text.runes b).map Text.toLowerRune
+
+/-- filepath.Ext of a file name: from the last '.' on ("" when there is none) -/
+def extOf (name : Bytes) : Bytes :=
+  match (name.reverse.findIdx? (· == 46)) with
+  | none => []
+  | some i => name.drop (name.length - 1 - i)
+
+def dkeyName (name : Bytes) : Bytes := name.take (name.length - (extOf name).length) ++ Gen.fs_dkeyExt
+
+inductive KeyLookup where
+  | notFound              -- afero.ErrFileNotFound: go on with the 3k3y test
+  | key (k : Bytes)
+  | failed                -- a key file exists but cannot be read / is malformed: the open fails
+deriving Repr, DecidableEq
+
+/-- read a key file that exists at `p` -/
+def keyAt (w : World) (p : Path) : Option KeyLookup :=
+  match w.stat p with
+  | none => none
+  | some (_, .file i) =>
+    match w.inode? i with
+    | some f => match Crypt.readKeyFile f.content.all with
+      | some k => some (.key k)
+      | none => some .failed
+    | none => some .failed
+  | some _ => some .failed     -- a directory opens but cannot be read
+
+/-- tryGetRedumpKey: `.iso` (any case) below a `ps3iso` element (any case): key beside the image
+    first, then in the parallel REDKEY directory -/
+def redumpKey (w : World) (p : Path) : KeyLookup :=
+  match p.getLast? with
+  | none => .notFound
+  | some name =>
+    if lowerBytes (extOf name) != lowerBytes Gen.fs_isoExt then .notFound else
+    match p.findIdx? (fun c => lowerBytes c == lowerBytes Gen.fs_ps3isoDir) with
+    | none => .notFound
+    | some idx =>
+      let beside := p.dropLast ++ [dkeyName name]
+      match keyAt w beside with
+      | some r => r
+      | none =>
+        match keyAt w ((p.set idx Gen.fs_redkeyDir).dropLast ++ [dkeyName name]) with
+        | some r => r
+        | none => .notFound
+
+def fileRd (f : Inode) : Nat → Nat → Bytes := fun off n => f.content.read off n
+
+/-- the wrappers FS.OpenFile puts around a regular file opened for reading -/
+def wrapFile (w : World) (p : Path) : Option (Option StaticView) :=
+  match w.stat p with
+  | some (_, .file i) =>
+    match w.inode? i with
+    | none => none
+    | some f =>
+      let size := f.content.size
+      let plainView (rd : Nat → Nat → Bytes) : StaticView :=
+        { size := size, mtime := f.mtime, read := rd, seekOk := fun _ => true }
+      let decrypting (key : Bytes) : Option (Nat → Nat → Bytes) :=
+        (Crypt.parseTable (fileRd f)).map (fun regs =>
+          Crypt.readDec (Crypt.aesSector key) (Crypt.gaps regs) (fileRd f) size 0)
+      match redumpKey w p with
+      | .failed => some none
+      | .key k =>
+        match decrypting k with
+        | none => some none
+        | some rd => some (some (plainView rd))
+      | .notFound =>
+        match Crypt.test3k3y (fileRd f) with
+        | .enc k =>
+          match decrypting k with
+          | none => some none
+          | some rd => some (some (plainView (fun off n => Crypt.mask3k3y (rd off n) off)))
+        | .dec => some (some (plainView (fun off n => Crypt.mask3k3y (fileRd f off n) off)))
+        | .no => none
+  | _ => none
+
+/-- translatePath + NewVirtualISO, then the file wrappers -/
 def wrap (clk : Viso.Clock) (filler : Bytes) (w : World) (p : Path) : Option (Option StaticView) :=
   if isVirtualPath p then
     match Viso.build w (p.drop 1) (isPs3Path p) clk filler with
     | none => some none
     | some img => some (some (visoView w img))
-  else none
+  else if !p.all Conn.nameOk then none
+  else wrapFile w p
 
 end Ps3.FSWrap
